@@ -834,6 +834,22 @@ class EpiSim(object):
                 AbstractContract.now = core.parse_t(op["t"])
                 self.fault("foreign_clock_write")
                 self.sink.records.append({"seq": self.sink.next_seq(), "kind": "clock", "t": core.parse_t(op["t"])})
+            elif name == "notify_quote":
+                # a live quote pushed into the environment between two steps (TradingEnv.notify), stamped with the very
+                # same timestamp as the last quote the exchange has seen
+                h = self.handles[op.get("env", 0)]
+                t = h.env.exchange.last_update
+                c = event_contract(None, h.contracts, op["c"])
+                ev = EventNBBO(t, c, op["bid"], op["ask"])
+                self.sink.idmap[id(ev)] = "notify"
+                rec = {"seq": self.sink.next_seq(), "kind": "notify", "env": h.tag, "sym": c.symbol, "bid": op["bid"], "ask": op["ask"], "time": t, "exc": None}
+                self.sink.records.append(rec)
+                try:
+                    h.env.notify(ev)
+                except Exception as e:
+                    rec["exc"] = type(e).__name__
+                rec["end_seq"] = self.sink.next_seq()
+                self.fault("quote_pushed_between_steps_with_the_last_timestamp")
             elif name == "bad_env":
                 # error path: somebody tries to build another environment on this transmitter with a latency that is
                 # not smaller than the smallest gap between timesteps; the constructor must refuse it and leave the
